@@ -267,6 +267,72 @@ pub fn run(ctx: &mut Ctx) {
         ctx.count("gv_flag_off_checks", 1.0);
         ctx.nontrivial(mix(&[13, idx as u64]));
     });
+    // two voices with different GV targets: the variance follows the GV Gaussian blended with the
+    // GV interpolation weights of that stream (not the parameter weights)
+    let n = ctx.n(12, 300);
+    ctx.run_cases("two-voices", n, false, |ctx, rng, idx| {
+        use crate::env::engine_from_voices;
+        use jbonsai::model::load_htsvoice_file;
+        use std::sync::Arc;
+        let factor = *rng.pick(&[2.0, 0.5, 3.0]);
+        let bytes2 = voicegen::scale_gv_means(&env.bundled_bytes, factor);
+        let p2 = env.voice_file(&bytes2);
+        let (Ok(v1), Ok(v2)) = (load_htsvoice_file(&env.bundled_path), load_htsvoice_file(&p2)) else {
+            ctx.inconclusive("two-voice set does not load");
+            return;
+        };
+        env.remove(&p2);
+        let Ok(mut e) = engine_from_voices(vec![Arc::new(v1), Arc::new(v2)]) else {
+            ctx.violation("engine-construction", J::from("bundled + GV-scaled copy"));
+            return;
+        };
+        let wg = *rng.pick(&[[1.0, 0.0], [0.0, 1.0], [0.5, 0.5], [0.25, 0.75]]);
+        let wp = *rng.pick(&[[0.5, 0.5], [1.0, 0.0], [0.75, 0.25]]);
+        let stream = idx % 2;
+        {
+            let iw = e.condition.get_interporation_weight_mut();
+            let ok = iw.set_parameter(stream, &wp).is_ok() && iw.set_gv(stream, &wg).is_ok();
+            if !ok {
+                ctx.violation("valid-weights-rejected", J::Null);
+                return;
+            }
+        }
+        let nl = rng.range(25, 45);
+        let labels = env.corpus.utterance(rng, nl, 0);
+        let text0 = labels[0].to_string();
+        let Ok(Some(gv)) = ref_gv(&env.bundled_ref, stream, &text0) else { return };
+        let gw = *rng.pick(&[0.5, 1.0, 2.0]);
+        e.condition.set_gv_weight(stream, gw);
+        let Ok(run) = trajectories(&e, labels.clone()) else {
+            ctx.violation("synthesize-err", J::from("two-voices"));
+            return;
+        };
+        let tr = traj_of(&run, stream);
+        let voiced: Vec<bool> = if stream == 1 { tr.iter().map(|f| f[0] != NODATA).collect() } else { vec![true; tr.len()] };
+        let el = eligibility(&env.bundled_ref, &labels, &run.durations, env.bundled_ref.num_states, &voiced);
+        let cnt = el.iter().filter(|b| **b).count();
+        if cnt < 100 {
+            ctx.count("utterance_streams_below_100_eligible", 1.0);
+            return;
+        }
+        let vlen = env.bundled_ref.streams[stream].vector_length;
+        for k in 0..vlen {
+            let vals: Vec<f64> = tr.iter().zip(&el).filter(|(_, e)| **e).map(|(f, _)| f[k]).collect();
+            let v = variance(&vals);
+            // interpolated GV mean: the second voice's is `factor` times the first's
+            let target = gw * (wg[0] * gv.mean[k] + wg[1] * factor * gv.mean[k]);
+            let ratio = v / target;
+            if !(0.8..=1.2).contains(&ratio) {
+                ctx.violation(
+                    "variance-does-not-follow-the-gv-interpolation-weights",
+                    J::obj().set("stream", stream).set("coefficient", k).set("gv_interpolation_weights", fvec(&wg, 4)).set("parameter_interpolation_weights", fvec(&wp, 4)).set("gv_scale_of_second_voice", factor).set("gv_weight", gw).set("ratio", ratio).set("eligible_frames", cnt),
+                );
+                return;
+            }
+            ctx.count("coefficient_variances_checked", 1.0);
+        }
+        ctx.nontrivial(mix(&[17, stream as u64, hash_str(&format!("{:?}{:?}{}{}", wg, wp, factor, gw)), hash_str(&text0)]));
+    });
     let n = ctx.n(24, 1000);
     ctx.run_cases("silence-only", n, false, |ctx, rng, _| {
         silence_case(ctx, &env, rng, &bundled, "bundled");
